@@ -18,13 +18,14 @@ func init() {
 	register(&Check{
 		ID:  "C25",
 		Run: runC25,
-		Explanation: "Decides the placement and shape of the password gate: (R1) in setupEncryptionKey every success return and the tail call handlePermissions is reached only through the true result of validateOwnerPassword or validateUserPassword (must-pass-through on the bool results' true edges), the !ok branch after the user-password check returns ErrWrongPassword, and in each of the six validate*Password* siblings every return whose ok result can be true is either the result of a hash comparison (passwordHashEqual / passwordHashPrefixEqual / bytes.Equal / subtle.ConstantTimeCompare / another validator) or a constant true dominated by the true edge of such a comparison; (R2) needsOwnerAndUserPassword compares the command against exactly {CHANGEOPW, CHANGEUPW, SETPERMISSIONS} — the three modes whose write path (updateEncryption) re-derives /U from ctx.UserPW and /O from ctx.OwnerPW, so both must have been authenticated — the !ok(owner) && needs(cmd) branch returns an error wrapping ErrOwnerPasswordRequired, and the owner-only success return is confined to the !needs(cmd) edge; (R3) in updateEncryption the new passwords are installed (ctx.UserPW = *UserPWNew, ctx.OwnerPW = *OwnerPWNew, or the New pointer is nil) on every path before any of o(ctx), u(ctx), calcOAndU(ctx) derives key material from them; ctx.EncKey is assigned only inside the validators/key-setup functions of pkg/pdfcpu (who-may-write); checkForEncryption (→ setupEncryptionKey) precedes dereferencing in the read path. (R4) the AES-256 owner validators return false for an empty candidate (len(ctx.OwnerPW) == 0) before any hash is computed; (R5) o() and validateOwnerPassword() hand values from the same context fields to key(): a fallback (empty owner password → user password) applied on one side only makes the stored /O authenticate another password than the one that was set; (R6) no error result is discarded in pkg/pdfcpu/crypto.go (password preparation and key derivation report unusable input through errors; hash.Hash.Write is exempt). NOT decided: hash/key-derivation mathematics (C24), behaviour over change histories beyond the ordering clause R3.",
+		Explanation: "Decides the placement and shape of the password gate: (R1) in setupEncryptionKey every success return and the tail call handlePermissions is reached only through the true result of validateOwnerPassword or validateUserPassword (must-pass-through on the bool results' true edges), the !ok branch after the user-password check returns ErrWrongPassword, and in each of the six validate*Password* siblings every return whose ok result can be true is either the result of a hash comparison (passwordHashEqual / passwordHashPrefixEqual / bytes.Equal / subtle.ConstantTimeCompare / another validator) or a constant true dominated by the true edge of such a comparison; (R2) needsOwnerAndUserPassword compares the command against exactly {CHANGEOPW, CHANGEUPW, SETPERMISSIONS} — the three modes whose write path (updateEncryption) re-derives /U from ctx.UserPW and /O from ctx.OwnerPW, so both must have been authenticated — the !ok(owner) && needs(cmd) branch returns an error wrapping ErrOwnerPasswordRequired, and the owner-only success return is confined to the !needs(cmd) edge; (R3) in updateEncryption the new passwords are installed (ctx.UserPW = *UserPWNew, ctx.OwnerPW = *OwnerPWNew, or the New pointer is nil) on every path before any of o(ctx), u(ctx), calcOAndU(ctx) derives key material from them; ctx.EncKey is assigned only inside the validators/key-setup functions of pkg/pdfcpu (who-may-write); checkForEncryption (→ setupEncryptionKey) precedes dereferencing in the read path. (R4) the AES-256 owner validators return false for an empty candidate (len(ctx.OwnerPW) == 0) before any hash is computed; (R5) o() and validateOwnerPassword() hand values from the same context fields to key(): a fallback (empty owner password → user password) applied on one side only makes the stored /O authenticate another password than the one that was set; (R6) no error result is discarded in pkg/pdfcpu/crypto.go (password preparation and key derivation report unusable input through errors; hash.Hash.Write is exempt). (R1, extended) validatePermissions reports true only as the result of the byte comparison of the decrypted /Perms with /P, or where the revision was compared unequal to 5 and 6 (no /Perms exists) — a tolerant 'relaxed mode' true lets an edited /P pass without the owner password. (R7) every store into Configuration.UserPWNew / OwnerPWNew in pkg/api, pkg/cli, cmd stores a provably non-nil pointer (an address, or a module function all of whose returns are such): the writer reads nil as 'no change requested', so an empty new password must not become nil. NOT decided: hash/key-derivation mathematics (C24), behaviour over change histories beyond the ordering clause R3.",
 		Rules: []string{
 			"C25.R1 MPT: authentication gate and shape of the validators",
 			"C25.R2 TABLE+MPT: modes that require both passwords; owner-required error",
 			"C25.R4 shape: AES-256 owner validators refuse an empty candidate",
 			"C25.R5 siblings: o() and validateOwnerPassword() derive the /O key from the same fields",
 			"C25.R6 error discipline: no discarded error in crypto.go",
+			"C25.R7 flow: the API stores a non-nil new-password pointer (nil means 'no change' to the writer)",
 			"C25.R3 MPT: new passwords installed before O/U derivation; EncKey writers",
 		},
 		Assumptions: []string{"the hash comparison helpers compare what they are given (value semantics not decided)"},
@@ -51,6 +52,9 @@ func init() {
 var c25Validators = []string{
 	"pkg/pdfcpu.validateUserPassword", "pkg/pdfcpu.validateOwnerPassword", "pkg/pdfcpu.validateOwnerPasswordAES256", "pkg/pdfcpu.validateUserPasswordAES256",
 	"pkg/pdfcpu.validateOwnerPasswordAES256Rev6", "pkg/pdfcpu.validateUserPasswordAES256Rev6",
+	// round 3 of seeding: the /Perms check is what binds the clear-text /P of an AES-256 document to the file key;
+	// a true result not decided by the byte comparison lets an edited /P pass without the owner password
+	"pkg/pdfcpu.validatePermissions",
 }
 
 var c25Compares = map[string]bool{
@@ -59,6 +63,8 @@ var c25Compares = map[string]bool{
 
 func runC25(c *Ctx) {
 	p, r := c.P, c.R
+	r.MinInst["C25.R7"] = 2
+	checkPasswordChangeRequested(c)
 	r.MinInst["C25.R1"] = 8
 	r.MinInst["C25.R2"] = 3
 	r.MinInst["C25.R3"] = 4
@@ -401,6 +407,9 @@ func boolFromCompare(v ssa.Value, at *ssa.Return, depth int, seen map[ssa.Value]
 					}
 				}
 			})
+			if !ok && fn.Name() == "validatePermissions" && revisionNotAES256(at.Block()) {
+				ok = true // "not applicable": /Perms exists for revisions 5 and 6 only
+			}
 			if !ok {
 				return "constant true not dominated by the true edge of a hash comparison"
 			}
@@ -658,4 +667,136 @@ var c25ErrIgnorable = map[string]string{
 	"hash.Hash.Write":    "hash.Hash.Write never returns an error",
 	"bytes.Buffer.Write": "always nil", "bytes.Buffer.WriteByte": "always nil", "bytes.Buffer.WriteString": "always nil",
 	"crypto/rand.Read": "",
+}
+
+// ---------------- C25.R7 (round 3 of seeding): a requested password change is never dropped ----------------
+
+// provablyNonNil: v is an address that cannot be nil — a local's or field's address, or a module function's
+// result all of whose return values are such (followed to depth 3).
+func provablyNonNil(v ssa.Value, d int, seen map[ssa.Value]bool) string {
+	if d > 3 {
+		return "call depth exceeded"
+	}
+	if seen[v] {
+		return ""
+	}
+	seen[v] = true
+	switch x := v.(type) {
+	case *ssa.Alloc, *ssa.FieldAddr, *ssa.IndexAddr, *ssa.Global, *ssa.MakeClosure, *ssa.MakeMap, *ssa.MakeSlice:
+		return ""
+	case *ssa.Const:
+		if x.IsNil() {
+			return "a nil constant"
+		}
+		return ""
+	case *ssa.Phi:
+		for _, e := range x.Edges {
+			if why := provablyNonNil(e, d, seen); why != "" {
+				return why
+			}
+		}
+		return ""
+	case *ssa.ChangeType:
+		return provablyNonNil(x.X, d, seen)
+	case *ssa.Call:
+		callee := staticCallee(x)
+		if callee == nil || !isSubject(callee) || len(callee.Blocks) == 0 {
+			return "the result of " + x.Call.Value.Name()
+		}
+		for _, ret := range returnsOf(callee) {
+			if len(ret.Results) == 0 {
+				continue
+			}
+			if why := provablyNonNil(ret.Results[0], d+1, seen); why != "" {
+				return callee.Name() + " can return " + why
+			}
+		}
+		return ""
+	case *ssa.UnOp:
+		if x.Op == token.MUL {
+			// a copy of the same field of another configuration is as good as the original
+			if fa, ok := x.X.(*ssa.FieldAddr); ok {
+				if f := structField(fa.X.Type(), fa.Field); f != nil && (f.Name() == "UserPWNew" || f.Name() == "OwnerPWNew") {
+					return ""
+				}
+			}
+		}
+	}
+	return "a value that may be nil: " + v.String()
+}
+
+// checkPasswordChangeRequested: write.go reads a nil UserPWNew / OwnerPWNew as "no change requested". The API entry
+// points that set the command to CHANGEUPW / CHANGEOPW therefore store a provably non-nil pointer, whatever the
+// new password is (the empty password is a legitimate new password: it removes the open password).
+func checkPasswordChangeRequested(c *Ctx) {
+	p, r := c.P, c.R
+	n := 0
+	for _, fn := range p.Funcs {
+		fid := FuncID(fn)
+		if !strings.HasPrefix(fid, "pkg/api.") && !strings.HasPrefix(fid, "pkg/cli.") && !strings.HasPrefix(fid, "cmd/") {
+			continue
+		}
+		fn := fn
+		eachInstr(fn, func(_ *ssa.BasicBlock, _ int, i ssa.Instruction) {
+			st, ok := i.(*ssa.Store)
+			if !ok {
+				return
+			}
+			fa, ok := st.Addr.(*ssa.FieldAddr)
+			if !ok {
+				return
+			}
+			f := structField(fa.X.Type(), fa.Field)
+			if f == nil || (f.Name() != "UserPWNew" && f.Name() != "OwnerPWNew") {
+				return
+			}
+			n++
+			if why := provablyNonNil(st.Val, 0, map[ssa.Value]bool{}); why != "" {
+				r.Bad("C25.R7", fid, "store "+f.Name(), p.Pos(st.Pos()), "the pointer stored into "+f.Name()+" can be nil ("+why+"): the writer reads nil as 'no change requested', so the password change is silently skipped and the old password keeps working")
+			} else {
+				r.OK("C25.R7", fid, "store "+f.Name(), p.Pos(st.Pos()), "a non-nil pointer is stored whatever the new password is", true)
+			}
+		})
+	}
+	if n == 0 {
+		r.Bad("C25.R7", "pkg/api", "anchor", "", "UNRESOLVED-ANCHOR: no store to Configuration.UserPWNew / OwnerPWNew in pkg/api, pkg/cli, cmd")
+	}
+}
+
+// revisionNotAES256: blk is reached only where the encryption revision was compared unequal to 5 and to 6.
+func revisionNotAES256(blk *ssa.BasicBlock) bool {
+	fn := blk.Parent()
+	got := map[int64]bool{}
+	eachInstr(fn, func(_ *ssa.BasicBlock, _ int, i ssa.Instruction) {
+		b, ok := i.(*ssa.BinOp)
+		if !ok || (b.Op != token.NEQ && b.Op != token.EQL) {
+			return
+		}
+		k, ok := constInt(b.Y)
+		val := b.X
+		if !ok {
+			k, ok = constInt(b.X)
+			val = b.Y
+		}
+		if !ok || (k != 5 && k != 6) {
+			return
+		}
+		ld, ok := val.(*ssa.UnOp)
+		if !ok || ld.Op != token.MUL {
+			return
+		}
+		fa, ok := ld.X.(*ssa.FieldAddr)
+		if !ok {
+			return
+		}
+		if f := structField(fa.X.Type(), fa.Field); f == nil || f.Name() != "R" {
+			return
+		}
+		for _, e := range condEdges(b, b.Op == token.NEQ) {
+			if edgeDominates(e, blk) {
+				got[k] = true
+			}
+		}
+	})
+	return got[5] && got[6]
 }
